@@ -183,8 +183,19 @@ func c03AttestJobs(e *ctlEnv, m int) {
 			CommitteesAtSlot: 4, ValidatorCommitteeIndex: uint64(i),
 		})
 	}
+	// pending from the moment the job is set up: when the scheduler comes to
+	// hold the job (it may run at once if already due) the mark is there
+	e.sched.OnSchedule = func(name string) {
+		for i := 0; i < m; i++ {
+			if name == fmt.Sprintf("Attestations for slot %d", slots[i]) {
+				_, pend := e.s.pendingAttestations[slots[i]]
+				vnd.Assert(pend, "C20.pending.marked-by-the-time-the-job-exists")
+			}
+		}
+	}
 	e.s.scheduleAttestations(context.Background(), epoch, []phase0.ValidatorIndex{1, 2, 3}, notCurrent)
 	vnd.Quiesce()
+	e.sched.OnSchedule = nil
 
 	first := uint64(epoch) * e.ct.SPE
 	last := first + e.ct.SPE - 1
